@@ -56,7 +56,18 @@ LEVEL_NOTE = ('trusted: numpy IEEE arithmetic, scipp containers/binning (bins re
 DESIGN_REF = 'DESIGN.md section 4, C19'
 TIMEOUT_S = {'quick': 900, 'thorough': 4 * 3600}
 
-FINDING_PREDICATES: dict = {}
+# Reading of "integer multiple of the reference or vice versa" at n = 0 on the divisor side
+# (|ref/f| < rtol, f not near a multiple): the code keeps such elements.  The symmetric reading of the
+# docstring allows it, "integer divisor" in the property text does not; a relative tolerance taken
+# relative to the multiple itself would keep them as well.  Not clear-cut, therefore counted
+# ('ambiguous:filter.zeroth_divisor...') and not judged unless this switch is turned on.
+JUDGE_ZEROTH_DIVISOR = False
+
+FINDING_PREDICATES: dict = {
+    'filter_in_phase.zeroth_divisor_kept': lambda v: (
+        v.get('kind') == 'filter_kept_zeroth_divisor'
+        and v.get('keys', {}).get('relation') == 'zeroth_divisor'),
+}
 
 Y_KINDS = ('float64', 'float32', 'int64')
 X_KINDS = ('float64', 'float32', 'int64', 'datetime64')
@@ -522,10 +533,10 @@ def judge_filter(ctx, args, res, exc, diag, origin):
     keys = {'function': 'filter_in_phase', 'dtype': fk}
     if fr.unit != ref.unit:
         # the ratio is then not a plain number; the documentation does not say which units may be mixed
-        if exc is not None and type(exc).__name__ in ('UnitError',):
-            ctx.count('filter.refused:frequency and reference in different units (UnitError)')
+        if exc is not None:
+            ctx.count(f'filter.refused:frequency and reference in different units ({type(exc).__name__})')
         else:
-            ctx.count('filter.out_of_domain:different units')
+            ctx.count('filter.out_of_domain:different units, accepted')
         return
     if fr.variances is not None or ref.variances is not None or rtol.variances is not None:
         # the property speaks of frequencies, not of uncertainties; whether they are supported is not stated
@@ -589,6 +600,15 @@ def judge_filter(ctx, args, res, exc, diag, origin):
         ctx.case(('filter', fk, str(ref.dtype), str(fr.unit), _rtol_band(rt),
                   'ref<0' if float(rv) < 0 else 'ref>0', 'mixed' if np.any(dec == 1) and np.any(dec == -1)
                   else ('keep' if np.any(dec == 1) else 'remove'), _size_band(max(n, 2)), origin))
+    if JUDGE_ZEROTH_DIVISOR and np.any(amb & kept):
+        j = int(np.flatnonzero(amb & kept)[0])
+        case['element'] = {'index': j, 'f': repr(f[j]), 'f/ref': repr(info['q'][j]),
+                           'dist_multiple': float(info['d1'][j]), 'ref/f': float(info['d2'][j])}
+        ctx.violation('filter_kept_zeroth_divisor',
+                      f'element {j} (f = {f[j]!r}, f/ref = {float(info["q"][j])!r}) is farther than 2 rtol from '
+                      f'every integer multiple of the reference and is kept only because |ref/f| < rtol = {rt:g} '
+                      '(n = 0 on the divisor side)', case, relation='zeroth_divisor', **keys)
+        return
     wrong_removed = (dec == 1) & ~kept
     wrong_kept = (dec == -1) & kept
     if np.any(wrong_removed):
@@ -985,7 +1005,8 @@ def gen_bins(rng):
         xvar = sc.array(dims=['event'], values=xv, unit=_pick(rng, ['s', 'ms', 'm']), dtype=xk)
     elif xk == 'int64':
         if edge == 'upper':
-            xv = (np.iinfo(np.int64).max - 1 - (j[-1] - j if ne else j))
+            # INT64_MAX - 1 has an upper neighbour; INT64_MAX itself has none (counted, not judged)
+            xv = (np.iinfo(np.int64).max - int(rng.random() < 0.8) - (j[-1] - j if ne else j))
         elif edge == 'lower':
             xv = np.iinfo(np.int64).min + j
         elif edge == 'zero':
